@@ -270,6 +270,9 @@ var c13SessInputs = []c13Input{
 	{"hh = func(n) { dbl(n + 1) }; println(catch(hh(1)))", false},
 	{"println(catch(eval(\"tri = macro(x) { quote(unquote(x) * 3) }; tri(2)\")))", false},
 	{"println(catch(hh(4)))", true},
+	// a macro whose body fails while it is being expanded (a recovered panic / an error): later uses are unaffected
+	{"bad = macro() { quote(unquote(1 + 2)) }; bad()", false},
+	{"bad2 = macro(x) { 1 / 0 }; println(catch(bad2(3)))", false},
 }
 
 // model of the session
